@@ -590,3 +590,12 @@ def p4(ctx):
 def p5(ctx):
     from .c06 import u1
     return [o for o in u1(ctx) if o.detail.startswith("_check_duplicate dominates") or o.detail == "calls _check_duplicate"]
+
+
+@rule("C03", "P6", floor=4, kind="N",
+      desc="preconditions are evaluated against the resource that is there: what get_member()/the listing cannot see "
+           "looks absent to If-None-Match / If-Match, so the listers skip entries only by name tests that the writers "
+           "refuse (same obligations as C01/H6)")
+def p6(ctx):
+    from .c01 import skip_obligations
+    return skip_obligations(ctx)
